@@ -14,6 +14,8 @@
 (*                    rcpps, 1.5 * 2^-12; rcp14 and the exact division are tighter)   *)
 (*                    for normal x with a normal reciprocal well inside the range;    *)
 (*                    +-inf for +-0, +-0 for +-inf, NaN for NaN                        *)
+(*   sadd/ssub      = add / sub on floating lanes; isnan/isinf/isfinite of an         *)
+(*                    integer lane = false / false / true                               *)
 (*   rsqrt(x)       = "approximate reciprocal square root": |r^2 x - 1| <= 2^-10        *)
 (*                    for positive normal x; +inf for +0, +0 for +inf, NaN for NaN and   *)
 (*                    for negative x                                                     *)
@@ -46,11 +48,16 @@ FdimOK(f, x, y, r) ==
   IF IsNaN(f, x) \/ IsNaN(f, y) \/ FSub(f, x, y) = NaNRes THEN TRUE          \* documented as max(0, x - y): inf - inf is NaN, and max with a NaN is left open
   ELSE IF FLt(f, y, x) THEN ResOK(f, FSub(f, x, y), r)
   ELSE IsZeroF(f, r)                                                        \* x <= y: a zero (fmax(0, x - y) may keep either zero when x = y)
+\* "saturated" sum of floating lanes: the native batch kernels add (an overflow is +-inf), the scalar overload and emulated<N> clamp an
+\* infinite sum to +-max (observation recorded in DESIGN 0.4b); the documentation does not choose, so both are admitted - nothing else is
+SatOK(f, s, r) == ResOK(f, s, r) \/ (s # NaNRes /\ IsInf(f, s) /\ r = MaxFinite(f, SignOf(f, s)))
 LaneOK(op, t, x, y, r) ==
   LET f == FmtOfT(t) IN
   CASE op = "pos" -> r = x
     [] op = "fabs" -> TypeTab[t].kind = "float" /\ r = FAbs(f, x)
     [] op = "fdim" -> TypeTab[t].kind = "float" /\ FdimOK(f, x, y, r)
+    [] op = "sadd" -> TypeTab[t].kind = "float" /\ SatOK(f, FAdd(f, x, y), r)
+    [] op = "ssub" -> TypeTab[t].kind = "float" /\ SatOK(f, FSub(f, x, y), r)
     [] op = "reciprocal" -> TypeTab[t].kind = "float" /\ RecipOK(f, x, r)
     [] op = "rsqrt" -> TypeTab[t].kind = "float" /\ RsqrtOK(f, x, r)
     [] OTHER -> FALSE
@@ -68,7 +75,14 @@ Init == /\ l = 1 /\ reg = [i \in 0 .. 3 |-> NoRow] /\ breg = <<>> /\ last = <<>>
 Step ==
   /\ l <= Len(Log)
   /\ LET e == Log[l] IN
-     IF e.k = "ew" /\ e.t \in TypeNames /\ Len(e.a) = RowBytes /\ Len(e.r) = RowBytes
+     IF e.k = "cmp" /\ e.t \in TypeNames /\ TypeTab[e.t].kind = "int" /\ e.op \in {"isnan", "isinf", "isfinite"} /\ Len(e.r) = NLanes(e.t)
+     THEN \* an integer is never NaN, never infinite, always finite
+          LET bad == {i \in LaneIdx(e.t) : e.r[i + 1] # (IF e.op = "isfinite" THEN 1 ELSE 0)} IN
+          IF bad = {}
+          THEN /\ breg' = e.r /\ last' = <<e.op, e.t>> /\ UNCHANGED reg
+               /\ TLCSet(1, TLCGet(1) + 1) /\ TLCSet(3, TLCGet(3) + NLanes(e.t))
+          ELSE PrintT(RejectLine(e, bad)) /\ TLCSet(2, TLCGet(2) + 1) /\ UNCHANGED xvars
+     ELSE IF e.k = "ew" /\ e.t \in TypeNames /\ Len(e.a) = RowBytes /\ Len(e.r) = RowBytes
      THEN LET bad == Bad(e) IN
           IF bad = {}
           THEN /\ reg' = [reg EXCEPT ![0] = e.r, ![1] = e.a] /\ last' = <<e.op, e.t>> /\ UNCHANGED breg
